@@ -265,7 +265,14 @@ def check(tier, seed, only=None, skip_a=False, skip_b=False):
       cov = {"proof_tier_notes": ["proof tier not run: " + traceback.format_exc(limit=4)]}
     # cue times: the real vtt_timestamp_to_secs / to_model with the reader's timestamp pattern stubbed by symbolic digit groups
     from contracts import reader_times
+    from contracts.c12 import clock_harnesses
     ths = [reader_times.h_vtt_timestamp(True), reader_times.h_vtt_timestamp(False), reader_times.h_vtt_cue_times()]
+    # `reading the WebVTT writer's own output returns the cues that were written`: writer -> reader in one symbolic run on document shapes
+    ths += [h for h in clock_harnesses() if h.name.startswith("ClockTime.from_seconds")]
+    rt = [("twop", ("b1", "e1")), ("nested", ("s1b", "s3e")), ("styled", ("ab", "ae"))] + ([("twop", ("b1", "e1", "e2")), ("rubyparts", ("rtb", "rte"))] if tier != "quick" else [])
+    ths += [reader_times.h_writer_reader_roundtrip("vtt", shape, mask) for shape, mask in rt]
+    for h in ths:
+      h.budget_s, h.max_paths = 300.0, 20000
     if only:
       ths = [h for h in ths if only in h.name]
     if ths:
